@@ -111,6 +111,9 @@ def e1_compare(ctx, m, caps, rep):
                     and abs(float(bi[0][2]) - float(bm[0][2])) <= 1e-9 * max(1.0, abs(float(bm[0][2]))):
                 impl = dict(impl, rows=sorted([r for r in impl["rows"] if not is_budget_row(r)] + bm, key=repr))
         d = lpdump.diff(impl, model) if "error" not in model["extra"] else ["model: " + model["extra"]["error"]]
+        # cross-check by the extracted verified checker (for the second model: with the budget right-hand side the code computed
+        # in doubles replaced by the exact product when they agree to 1e-9, as above)
+        d = e1misc.decide(ctx, eng, impl, reqs[j], d)
         ctx.count(eng, "cases"); ctx.count(eng, "rows_compared", len(impl["rows"])); ctx.count(eng, "cols_compared", len(impl["cols"]))
         if d:
             ctx.count(eng, "disagreements")
